@@ -24,6 +24,7 @@ known('F2', 'C10', ['C10.event_incomplete', 'C10.result_left_nonterminal', 'C10.
 known('F2', 'C15', ['C15.hang'], F2 + ' and stays pending in history, wait_until_idle never returns', '')
 F4 = 'an event accepted by several buses (forwarding / re-dispatch) signals completion after the first bus; later buses add results to the completed event'
 known('F4', 'C03', ['C03.descendant_incomplete', 'C03.incomplete_at_return', 'C03.results_not_terminal'], F4)
+known('F4', 'C08', ['C08.changed_after_complete'], F4, 'findings/F4_c08.json')
 known('F4', 'C04', ['C04.descendant_incomplete', 'C04.child_incomplete_at_return', 'C04.results_not_terminal'], F4, '')
 F5b = 'a handler timeout aborts an UNRELATED event that its await loop was draining inline; that event never completes'
 known('F5b', 'C10', ['C10.event_incomplete', 'C10.result_left_nonterminal', 'C10.hang'], F5b)
@@ -37,6 +38,8 @@ for p in ('C01', 'C03', 'C04', 'C07', 'C10', 'C14', 'C15'):
     cl = HANG(p) + ({'C10': ['C10.event_incomplete', 'C10.result_left_nonterminal'], 'C03': ['C03.descendant_incomplete'], 'C04': ['C04.child_incomplete_at_return', 'C04.descendant_incomplete'],
                      'C14': ['C14.parent_never_completes']}.get(p, []))
     known('F11', p, cl, F11, '')
+known('F16', 'C16', ['C16.hang'], 'dispatch()/wait_until_idle() on a bus after stop() began restarts a run loop on the shut-down queue, which spins forever without sleeping (livelock; stop() itself can then cancel the wrong task)')
+known('F20', 'C16', ['C16.handler_after_stop'], 'an event of the stopped bus whose inline processing (by an awaiting handler) had begun before stop() returned still starts its remaining handlers afterwards')
 known('F14', 'C02', ['C02.inversion'], 'a run loop holds a dequeued event while blocked on the global lock; an awaiting handler drains a later event of that bus first')
 F15 = 'on a parallel_handlers bus two sibling handlers that both await children process those subtrees concurrently'
 known('F15', 'C06', ['C06.overlap'], F15)
@@ -51,6 +54,7 @@ fixed('F6', 'C06', ['C06.overlap'], 'b7feea3', 'bus first used inside a handler 
 fixed('F7', 'C16', ['C16.cancelled_runloop_not_done'], '0558ace', 'cancelling the run-loop task was swallowed; the task never ended')
 fixed('F8', 'C09', ['C09.own_parent', 'C09.root_has_parent'], 'ca107f3', 'forwarded root event became its own parent')
 fixed('F10', 'C16', ['C16.handler_after_stop'], '2d7c9ce', 'backlog of a stopped bus was processed inline by another bus\'s awaiting handler')
+fixed('F19', 'C16', ['C16.task_survives_cancel', 'C16.cancelled_runloop_not_done'], '770e78d', 'cancel landing while execute_handler awaited its monitor task was swallowed; run loop survived asyncio.run() exit')
 fixed('F17', 'C15', ['C15.not_idle_at_return'], '67ce4a2', 'wait_until_idle returned with a forwarded event still queued')
 fixed('F18', 'C09', ['C09.children_attribution'], 'f319433', 'child dispatched to two buses by one handler was listed twice in event_children')
 with open('/verif/KNOWN_FINDINGS.jsonl', 'w') as f:
